@@ -63,7 +63,8 @@ Proof.
     | |- sres_wf (match ?att with _ => _ end) => assert (Ha : sres_wf att); [|destruct att as [g'|g' nm sp|er]]
     end.
     + apply liftA_wf. intros spec0 Hs0. apply liftA_wf. intros spec_req Hsr.
-      destruct (get_dist_stack u spec_req (Some maxdg)) as [md|]; [|apply log_wf; apply log_wf; exact Hwf].
+      match goal with |- context [get_dist_stack_src ?a u spec_req (Some maxdg)] => destruct (get_dist_stack_src a u spec_req (Some maxdg)) as [md|] end;
+        [|apply log_wf; apply log_wf; exact Hwf].
       apply liftA_wf. intros reason Hreason. apply liftA_wf. intros [g1 nodes] Hadd.
       assert (Hwf1 : wf g1) by (eapply add_dist_wf; [|exact Hadd]; apply log_wf; apply log_wf; exact Hwf).
       apply fold_sres_wf; [|exact Hwf1].
@@ -104,10 +105,10 @@ Qed.
 Definition cres_wf (r : cres) : Prop :=
   match r with COk g _ => wf g | CNoCand g _ _ => wf g | CFatal _ => True end.
 
-Theorem perform_compile_stack_wf fuel e u inputs cons rc md :
-  cres_wf (perform_compile_stack fuel e u inputs cons rc md).
+Theorem perform_compile_stack_ob_wf fuel e u inputs cons rc md ob_all ob :
+  cres_wf (perform_compile_stack_ob fuel e u inputs cons rc md ob_all ob).
 Proof.
-  unfold perform_compile_stack.
+  unfold perform_compile_stack_ob.
   destruct (match cons with Some cs => collect_pins cs true [] | None => Rok (true, []) end) as [[all_pinned pins]|er]; [|exact I].
   destruct (match cons with
             | Some cs => if all_pinned then Rok (empty_graph, []) else add_containers e empty_graph cs []
@@ -134,6 +135,10 @@ Proof.
     eapply add_containers_wf; [exact Hr|exact E3].
   - exact I.
 Qed.
+
+Theorem perform_compile_stack_wf fuel e u inputs cons rc md :
+  cres_wf (perform_compile_stack fuel e u inputs cons rc md).
+Proof. apply perform_compile_stack_ob_wf. Qed.
 
 (* the statement in the property's words: a successful compile never holds two nodes (hence never
    two versions) for one project *)
